@@ -76,10 +76,10 @@ func check(t run.TB, c Case) outcome {
 	return outcome{true, val.OK, want.Features}
 }
 
-func specOf(pg gen.PrintedGraph, keysOpt bool) lib.Spec {
+func specOf(pg gen.PrintedGraph, keysOpt bool, optTypes map[string]bool) lib.Spec {
 	sp := lib.Spec{Schema: pg.Schema, KeysOptional: keysOpt}
 	for _, t := range pg.Types {
-		sp.Types = append(sp.Types, lib.Named{Name: t.Name, Text: t.Text})
+		sp.Types = append(sp.Types, lib.Named{Name: t.Name, Text: t.Text, KeysOptional: optTypes[t.Name]})
 	}
 	return sp
 }
@@ -148,7 +148,16 @@ func TestComposition(t *testing.T) {
 	rapid.Check(t, func(t *rapid.T) {
 		gc := gen.GenGraph(t, gen.GraphOpts{MaxTypes: 6, Recursion: true, MixedRule: true}, "g")
 		pg := gc.Print(nil)
-		sp := specOf(pg, gc.G.KeysOptional)
+		// some object types are created with KeysAreOptionalByDefault (their keys stay optional where
+		// the type is referenced and where its properties are inherited)
+		gc.G.OptTypes = map[string]bool{}
+		for _, ty := range pg.Types {
+			if n := gc.G.Types[ty.Name]; n != nil && n.Kind == ref.SObj && rapid.IntRange(0, 3).Draw(t, "optType") == 0 {
+				gc.G.OptTypes[ty.Name] = true
+				run.Label("type-with-keys-optional-by-default")
+			}
+		}
+		sp := specOf(pg, gc.G.KeysOptional, gc.G.OptTypes)
 		// the file name of a schema object is independent of the name it is added under: sometimes
 		// every object gets the same one (anonymous `or` types must still be kept apart)
 		sp.SameFile = rapid.IntRange(0, 2).Draw(t, "sameFile") == 0
